@@ -56,7 +56,7 @@ func c03(c *wk.Ctx) {
 			if c.Mine(idx) {
 				r := c.Rand(idx)
 				key, ks := authKey(r)
-				info := &stubInfo{key: key, salt: pick64(r), session: pick64(r), seq: int32(r.Intn(1 << 20) * 2)}
+				info := &stubInfo{key: key, salt: pick64(r), session: pick64(r), seq: int32(r.Intn(1<<20) * 2)}
 				if r.Intn(10) == 0 {
 					info.seq = 0
 				}
